@@ -12,6 +12,7 @@ from vf.h import *
 
 import copy
 import itertools
+import os
 import time
 
 import jsonschema
@@ -168,8 +169,12 @@ def rewrite_inclusion(replay=None):
     junk_count = 0
     checked_patterns = set()
     t0 = time.time()
+    budget = float(os.environ.get("VF_BUDGET_S") or 0)
     for i, (pattern, a, b) in enumerate(family()):
         if i % K != P:
+            continue
+        if budget and time.time() - t0 > 0.85 * budget:
+            stats["not_reached"] += 1  # out of time: the rest of this shard's family is reported as not decided
             continue
         stats["instances"] += 1
         try:
@@ -211,12 +216,13 @@ def rewrite_inclusion(replay=None):
         "instances": stats["instances"], "unchanged": stats["unchanged"], "rewritten": stats["rewritten"], "unsupported": stats["unsupported"],
         "translator_checks": stats["translator_checks"], "violations": violations, "samples": samples, "errors": hard_errors,
         "soft_errors": errors[:3], "unknown_instances": stats_unknown, "solver_s": round(time.time() - t0, 1),
+        "truncated": bool(stats["not_reached"]), "instances_not_reached": stats["not_reached"],
     }
 
 
 OBLIGATIONS = [
     Ob(fn="rewrite_inclusion", kind="z3", clause="pattern x minLength/maxLength: every string accepted by the schema handed to the generator is accepted by the declared schema, and a satisfiable schema stays satisfiable",
-       timeout={"quick": 400, "thorough": 3000}, params=range(K),
+       timeout={"quick": 400, "thorough": 2400}, params=range(K),
        functions=["schemathesis.specs.openapi.converter.update_pattern_in_schema", "schemathesis.specs.openapi.patterns.update_quantifier",
                   "schemathesis.specs.openapi.patterns._handle_parsed_pattern", "schemathesis.specs.openapi.patterns._handle_anchored_pattern",
                   "schemathesis.specs.openapi.patterns._distribute_length_constraints", "schemathesis.specs.openapi.patterns._update_quantifier",
